@@ -80,6 +80,19 @@ class GarbageCollector:
         if not metadata:
             return stats
 
+        # A version hint that names a MISSING metadata file means the current
+        # version itself is damaged: refresh() then serves an older version found
+        # by scanning, and collecting against that would delete every file only
+        # the lost version references. Reachability cannot be trusted - abort.
+        hinted = self.metadata_manager._read_version_hint()
+        if hinted is not None and not self.storage.exists(
+            f"{self.metadata_manager.metadata_path}/{hinted[1]}"
+        ):
+            raise GarbageCollectionAborted(
+                f"Aborting GC: the version hint names a missing metadata file "
+                f"({hinted[1]}). Nothing was deleted."
+            )
+
         logger.info(f"Starting garbage collection for {self.table_path}")
 
         # 2. Identify all reachable files. ANY failure here aborts the whole
